@@ -736,8 +736,9 @@ fn %s() {
 }
 """ % (_name, _n, _kl, _vl, _iv, _n2))
     _q = _i in (3, 4, 5, 7)
-    HARNESSES.append(H("block_writer::verif_h::" + _name, ["C09", "C15", "C01", "C14", "C18"],
-                       tier={"C09": "quick" if _q else "thorough", "C15": "quick" if _q else "thorough", "*": "thorough"},
+    HARNESSES.append(H("block_writer::verif_h::" + _name, ["C09", "C15", "C01", "C02", "C14", "C18"],
+                       tier={"C09": "quick" if _q else "thorough", "C15": "quick" if _q else "thorough",
+                             "C01": "quick" if _i in (3, 4) else "thorough", "C02": "quick" if _i in (3, 4) else "thorough", "*": "thorough"},
                        kind="D", layer="L2", timeout=1200,
                        decides="real BlockWriter = reference encoding: size estimate after every insert = payload + 8 x offsets + 4 = exact finished length; "
                                "finished bytes (varint framing, key/value bytes, offset table every interval entries starting at 0, u32 BE count) equal the "
